@@ -173,7 +173,7 @@ def install(ctx, repo, probes):
                "from_epoch/utc/nonneg", "from_epoch/local/neg",
                "from_epoch/local/nonneg", "to_epoch/cal", "to_epoch/ord",
                "to_epoch/week", "to_epoch/before-1970", "real-tz",
-               "carry/to_local", "carry/parser")
+               "carry/to_local", "carry/parser", "strptime-epoch")
 
 
 def make_mock(std, alt, daylight, isdst):
@@ -276,6 +276,31 @@ def _run_case(ctx, repo, case, MODE):
         with mock.patch.object(TZM, "time", m):
             repo.data.get_timepoint_from_seconds_since_unix_epoch(
                 case["n"], utc=case["utc"])
+            if case.get("via_strptime") is not None and \
+                    isinstance(case["n"], int):
+                # the same count read as text by strptime("%s"), whatever
+                # default zone the parser was given
+                ctx.ev("strptime_epoch")
+                kw = {}
+                if case["via_strptime"] != "local":
+                    kw["assumed_time_zone"] = tuple(case["via_strptime"])
+                try:
+                    q = repo.parsers.TimePointParser(**kw).strptime(
+                        str(case["n"]), "%s")
+                    want = R.unix_epoch_rd(MODE) * 86400 + case["n"]
+                    if R.tp_instant(MODE, q) != want:
+                        ctx.violation(
+                            "strptime_epoch", "strptime(%r, '%%s') with "
+                            "parser zone %r under system offset %d s gives "
+                            "%r, %s s from the epoch + n" % (
+                                str(case["n"]), case["via_strptime"],
+                                case.get("std", 0), R.tp_key(q),
+                                float(R.tp_instant(MODE, q) - want)))
+                    else:
+                        ctx.cls("strptime-epoch")
+                except Exception as exc:
+                    ctx.violation("strptime_epoch", "strptime(%r, '%%s') "
+                                  "raised %r" % (str(case["n"]), exc))
         if case["n"]:
             ctx.nontrivial(("from", case["n"], case["utc"],
                             case.get("std", 0)))
@@ -368,6 +393,10 @@ def workload(ctx, repo):
                 "std": 0 if i % 2 == 0 else 60 * rng.randint(-1440, 1440),
                 "mode": R.MODES[i % 4] if i % 3 == 0 else "gregorian"}
         ctx.cls("mode/" + case["mode"])
+        if i % 4 == 1:
+            case["via_strptime"] = rng.choice(
+                ("local", [0, 0], list(gen.rand_offset(rng, wide=False))))
+            case["std"] = rng.choice((0, 0, case["std"]))
         ctx.case = case
         if i % 499 == 0:
             ctx.sample(case)
